@@ -228,12 +228,17 @@ Qed.
 Lemma index_list_refines items s b x : f_index (VList items s b) x = ROk (sp_index (VList items s b) x).
 Proof. cbn [f_index]. unfold sp_index. cbn [as_list l_items]. now rewrite v_of_pos_first. Qed.
 
-(* ... and on any other value that is neither a map nor an argument list *)
+(* ... on an argument list (its items) *)
+Lemma index_args_refines p x : f_index (VArgs p) x = ROk (sp_index (VArgs p) x).
+Proof. cbn [f_index]. unfold sp_index. cbn [as_list l_items]. now rewrite v_of_pos_first. Qed.
+
+(* ... and on any other value that is not a map *)
 Lemma index_single_refines l x :
-  match l with VList _ _ _ | VMap _ | VArgs _ => False | _ => True end ->
+  match l with VMap _ => False | _ => True end ->
   f_index l x = ROk (sp_index l x).
 Proof.
-  destruct l; try contradiction; intros _; unfold sp_index; cbn [f_index as_list l_items first_pos];
+  destruct l; try contradiction; intros _; try apply index_list_refines; try apply index_args_refines;
+  unfold sp_index; cbn [f_index as_list l_items first_pos];
   match goal with |- context [veq ?a x] => destruct (veq a x) end; reflexivity.
 Qed.
 
@@ -313,12 +318,6 @@ Proof.
     + exists x. split; [now right|exact H].
   - intros k Hk. now rewrite zip_rows_nth.
 Qed.
-
-(* refuted clauses *)
-Lemma refuted_index_arglist :
-  f_index (VArgs [v_int 1; v_int 2; v_int 3]) (v_int 2) = ROk VNull /\
-  sp_index (VArgs [v_int 1; v_int 2; v_int 3]) (v_int 2) = v_int 2.
-Proof. split; vm_compute; reflexivity. Qed.
 
 (* == between two lists: == elements in order, same separator (undecided is its own kind), same brackets;
    in particular the separator of an empty or one-element list is part of its identity *)
